@@ -111,6 +111,91 @@ def c12_joint(op, impl, model, stats):
         return "POSTCARD_MAX_SIZE = %d is not attained: the longest encoding of this tight kind has %d bytes" % (n, exact)
     return None
 
+def io_project(op, a):
+    """reader / writer transports (C11, also inside C04 / C13): the property says a failing transport or a too-small
+    scratch buffer 'produces an error'; no kind is named and how far a failing writer got is only required to be a
+    prefix (harness oracle)."""
+    if op.startswith(("rio ", "deseq ")):
+        return re.sub(r"\berr [a-z-]+", "err", a)
+    if op.startswith("wio ") and a.startswith("err "):
+        return "err"
+    return a
+
+def io_equiv(op, impl, model):
+    """`rio` / `deseq`: the model mirrors the unchanged code's scratch use (str / bytes / char / float payloads). An
+    implementation may use LESS scratch (e.g. read floats byte-wise): it then succeeds where the model runs out, and
+    hands back more. The harness oracle has already checked every value it decoded against slice decoding, the
+    consumed byte count and the slot geometry, so: equal up to the point where the MODEL fails and the
+    implementation goes on; at the end, the same number of bytes delivered and at least as much scratch left."""
+    if not op.startswith(("rio ", "deseq ")) or impl.startswith("FAIL") or model.startswith("FAIL"):
+        return False
+    a, b = impl.split(" | "), model.split(" | ")
+    for k in range(max(len(a), len(b))):
+        x = a[k] if k < len(a) else None
+        y = b[k] if k < len(b) else None
+        if x == y:
+            continue
+        if y is not None and y.startswith("err") and x is not None and x.startswith("ok "):
+            return True          # the implementation needed less scratch than the model of the unchanged code
+        mx = re.match(r"(fin )?delivered=(\d+) scratchleft=(\d+)$", x or "")
+        my = re.match(r"(fin )?delivered=(\d+) scratchleft=(\d+)$", y or "")
+        if mx and my and mx.group(2) == my.group(2) and int(mx.group(3)) >= int(my.group(3)):
+            continue
+        return False
+    return True
+
+_TYPE_NAME = re.compile(r"\((struct|enum) x[0-9a-f]*")
+def c14_project(op, a):
+    """`schemaof`: the TYPE's own name is not among what C14 lists (kinds, field names and order, variant names and
+    indices, arity, element types) - serde calls Range<T> "Range" - so struct / enum type names are erased before the
+    model's impl tables are compared with the real SCHEMA (false alarm on a neutral renaming of the range schemas)."""
+    if op.startswith("schemaof "):
+        return _TYPE_NAME.sub(lambda m: "(" + m.group(1) + " x", a)
+    return a
+
+def _acc_overlong(op):
+    """does the history of an `acc <N> <type> <chunk>*` op contain a segment that does not fit (with its sentinel)?"""
+    parts = op.split(" ")
+    try:
+        n = int(parts[1])
+    except (IndexError, ValueError):
+        return False
+    hexes = [x[1:] for x in parts if x.startswith("x")]
+    stream = bytes.fromhex("".join(hexes))
+    segs = stream.split(b"\x00")
+    tail = segs.pop() if segs else b""
+    return any(len(sg) + 1 > n for sg in segs) or len(tail) > n
+
+def c09_project(op, a):
+    """C09 fixes, for an over-long segment, only: OverFull before its sentinel is passed, initial state after every
+    zero byte, the next fitting frame delivered intact, progress, no panic - all decided by the harness oracle from
+    WHERE in the stream each call ended. Which other results are reported while the over-long segment goes by (the
+    unchanged code treats its tail as a frame of its own) is not constrained, so histories with an over-long segment
+    are not compared event by event (false alarm on a neutral 'skip the rest of an over-long frame' accumulator)."""
+    if a.startswith("FAIL"):
+        return a
+    if op.startswith("accrep "):
+        last = [e for e in a.split(" ; ") if e.startswith("S ")]
+        return "accrep last-success=" + (last[-1].split(" rem=")[0] if last else "none")
+    if op.startswith("acc ") and _acc_overlong(op):
+        return "acc (over-long segment: events not compared)"
+    return a
+
+def c19_project(op, a):
+    """`fmt`: the property demands that rendering terminates and mentions the names (harness oracle); the exact
+    text, and the helper `is_prim`, are not constrained (false alarm on a neutral change of spacing / `(T,)`)."""
+    if op.startswith("fmt ") and a.startswith("ok "):
+        return "ok"
+    return a
+
+def c05_project(op, a):
+    """a Display-collected value is not 'ordinary': which error kind its storage failure is reported as is not
+    named by the property; bounded-buffer contents after a failure are never compared (see check)."""
+    a = a.split(" mem=")[0] if a.startswith("err") else a
+    if op.startswith("collectcap ") and a.startswith("err "):
+        return "err"
+    return a
+
 def c20_project(op, a):
     """`rec`: the property lets the encoder choose between push and extend ("through whichever of its push/extend
     methods the encoder chooses"), so only the concatenated payload, in order, is compared - not the call structure
@@ -157,7 +242,7 @@ PROPS = {
         "gens": ["C05"],
         "rule": "`flavseq <slice|hvec> <cap> <plain|cobs> <p:HH|e:HEX>*`: storage flavours driven through the public Flavor API with arbitrary push / extend sequences past buffer-full (compared up to the first error; finalize after an error must not panic on the plain storages; canaries); `collectcap <framing> <storage> <cap> <piece>*`: a collect_str value whose Display writes the pieces, into bounded storage at every capacity (model: collectStrWith; error kind and buffer contents compared); op lines `sercap <framing> <storage> <cap> <value>` for every capacity 0..L+2 (L = complete output length; 8 capacities around L for long outputs), framing in {plain, cobs, 10 CRC algorithms}, storage in {slice between canary zones, heapless const-generic capacities}, plus `size <value>`; harness oracle: success iff cap >= L, bytes = unbounded output, at the front, rest of buffer untouched, canaries intact; non-trivial = distinct op line with cap within 2 of L",
         "nontrivial": lambda op, a: True,
-        "project": lambda op, a: (a.split(" mem=")[0] if a.startswith("err") else a),
+        "project": c05_project,
         "classify": lambda op, a: tuple(op.split(" ", 3)[:3]) + (a.split(" ", 2)[0] + (" " + a.split(" ", 2)[1] if a.startswith("err") else ""),),
         "diff_is_witness": False,
         "trusted_base": COMMON_TB + [SERDE_TB, "heapless::Vec push/extend_from_slice atomicity MODELLED", "real out-of-bounds writes are observed through canary zones around the buffer, not proved (the list model cannot express them)"],
@@ -192,6 +277,7 @@ PROPS = {
     },
     "C09": {
         "gens": ["C09"],
+        "project": c09_project,
         "rule": "every history also with feed and feed_ref MIXED on one accumulator; accumulators of capacity 255..1024 with long frames incl. capacities too small for them; (empty chunks are inserted into some histories and handed to feed once); as C08 but with over-long segments, garbage and capacities equal to, one/two less than and one more than the longest segment, and capacities 1 and 2; harness oracle: no panic, loop terminates within 2*len+2 calls, buffer empty after a zero, over-long first segment reported OverFull, fitting frame after a zero delivered intact; non-trivial = distinct op line with >= 2 chunks",
         "nontrivial": lambda op, a: op.count(" x") >= 2,
         "diff_is_witness": False,
@@ -228,6 +314,7 @@ PROPS = {
     },
     "C19": {
         "gens": ["C19"],
+        "project": c19_project,
         "rule": "scale schemas (depth to 257 / 300, width to 257 / 513); (the `fmt` answer also carries `fmt::is_prim`, compared with the model's isPrim); `fmt <schema>` (to_pseudocode / Display, compared as bytes) and `discover <schema>` (all_used_types as a sorted list) on every node kind incl. usize/isize/schema, array-vs-tuple cases, random trees; oracle: no panic, set contains the schema itself, rendering mentions every declared name; non-trivial = distinct op line",
         "nontrivial": lambda op, a: True,
         "diff_is_witness": False,
@@ -238,7 +325,8 @@ PROPS = {
         "gens": ["C04"],
         "rule": "`deseq`: ONE Deserializer::from_flavor(IOReader / EIOReader) decodes several values and is used AGAIN after a value failed (scratch exhausted, fault, malformed), then finalized - compared up to the first error, afterwards borrowed slots and the returned scratch must stay inside the buffer (guard pages) and disjoint; (the C03 stream incl. its scale cases under guard pages; the `alloc` op additionally runs each concrete heap type through 8 framed decoders - five CRC widths incl. the crate-root crc32 wrappers, from_bytes_cobs, take_from_bytes_cobs - under the counting allocator); `deg <type> <bytes>`: the C03 adversarial stream (subsampled) decoded with the input copied flush against PROT_NONE pages on the right and on the left (a read outside the input is a SIGSEGV attributed to the op line), through the slice path and the reader path (scratch buffer also guarded, three scratch sizes), with every borrowed str/bytes checked to lie inside the input right after its length prefix, ordered and disjoint, and every sequence size hint <= input length; `alloc <concrete type> <bytes>`: 10 heap-allocating Rust types (Vec<u8/u64/u128>, String, Vec<String>, Vec<Vec<u16>>, ...) decoded from adversarial length prefixes up to u64::MAX under a counting allocator with bound K_T*len+1024; any/identifier/ignored requests; non-trivial = distinct op line with >= 1 input byte",
         "nontrivial": lambda op, a: not op.endswith(" x"),
-        "project": _c03_project_keep_wont,
+        "project": lambda op, a: io_project(op, _c03_project_keep_wont(op, a)),
+        "equiv": io_equiv,
         "diff_is_witness": True,
         "trusted_base": COMMON_TB + [SERDE_TB, CORE_TB, "PARTIAL: real memory safety and real allocation are runtime behaviour observed by the harness (guard pages, counting allocator), the theorems are about the cursor arithmetic, remainder/prefix structure and size-hint logic of the model", "serde's size_hint::cautious and Vec growth are MODELLED (Model/SizeHint.lean)"],
         "assumptions": ["allocation bound claimed for element types occupying >= 1 wire byte; map pre-allocation (MapAccess::size_hint returns the claimed length, capped by serde at 1 MiB) is outside the property's statement and not checked"],
@@ -266,6 +354,8 @@ PROPS = {
     },
     "C11": {
         "gens": ["C11"],
+        "project": io_project,
+        "equiv": io_equiv,
         "rule": "`deseq` (one Deserializer over a reader used again after a failed value); writers implement write_vectored NATIVELY (short vectored writes); `rio <adapter>tr`: TRANSIENT reader faults (one error, then the data continues) at every offset; writer adapters std | stdzero (a full sink answers Ok(0)) | stdintr (Interrupted results in between) | eio; random-schedule readers also interleave Interrupted; `wio <std|eio> <failAt> <schedule> <value>`: to_io / to_eio through a byte writer that accepts data in whole, 1-byte or seeded random short pieces and fails at EVERY absolute byte offset 0..L+1 of the encoding; `rio <std|eio> <fault> <scratch> <schedule> <count> <type> <stream>`: from_io / from_eio decoding 1..5 consecutive messages from one reader delivering whole / random short reads, with scratch sizes 0..need+1, a fault injected at every byte offset of the transfer, trailing bytes, one-message-too-many (EOF) and truncated streams; the scratch buffer sits against an inaccessible page; harness oracle: bytes handed to the writer are a prefix of the plain encoding, reader value = slice value, reader advanced by exactly the message length, borrowed data inside the scratch buffer, disjoint and ordered; non-trivial = distinct op line",
         "nontrivial": lambda op, a: True,
         "diff_is_witness": False,
@@ -284,6 +374,7 @@ PROPS = {
     "C14": {
         "alt_config": {"ops": [], "schemaops": True},
         "gens": ["C14"],
+        "project": c14_project,
         "derive_programs": {"quick": 30, "thorough": 200},
         "derive_kind": "schema",
         "rule": "corpus incl. enums with explicit non-monotone discriminants, raw identifiers, ManyOpts / ManyRows at 127..1025 elements; `schemaof <type description>`: the model's impl tables and derive model (`schemaOf`) vs the real `T::SCHEMA` for ~120 described types (every impl row, hand-written derives incl. raw identifiers, seed-generated derive programs); `conf <call tree> <schema> <bytes>`: REAL data recorded when the stream is generated — for ~150 concrete Rust types (every built-in Schema impl: ints, NonZero*, floats, char, str/String/PathBuf, unit, tuples 1..6, arrays, slices/Vec/sets, maps incl. non-string keys, Option, Result, references, ranges, heapless 0.7/0.8, uuid, chrono DateTime<Utc/FixedOffset>, nalgebra matrices, Key, DataModelType/OwnedDataModelType; hand-written derives: unit/newtype/tuple/named, zero-field forms, generic, lifetime-carrying, nested, raw identifiers; seed-generated #[derive(Schema)] programs) and candidate + random values each: the exact serde call tree from a recording serializer (is_human_readable = false), T::SCHEMA, and postcard's bytes. The Lean driver evaluates the specification on them: conforms(tree, schema), the schema-driven reader consuming the bytes exactly, enc(erase tree) = bytes; non-trivial = distinct op line",
